@@ -91,8 +91,5 @@ Fixpoint checks_exact (st : fstate) (ops : list fop) : bool :=
        | _ => true
        end) && checks_exact (fst (fst (fstep st o))) rest
   end.
-(* no local edit is refused by the index *)
-Definition no_refusal (st : fstate) (ops : list fop) : bool := negb (existsb (Z.eqb 2) (frun_obs st (filter (fun o => match o with FCheck _ => false | _ => true end) ops))).
-
 Definition eval_C17 (c : c17case) (obs : list Z) : list Z :=
   [zb (zlist_eqb (run_C17 c) obs); zb (spec_C17 c obs)] ++ known_C17 c.
